@@ -216,55 +216,16 @@ class QCumulantFlow(FlowInterface.FlowInterface):
         if k == 6:
             # this implements Eq. (A10) from Ref. [2]
             Q2n = self.__Qn(phi, 2 * self.n_)
-            Q2n_sq_sum = np.vdot(Q2n, Q2n).real
-            Qn_sq = np.square(Qn.real) + np.square(Qn.imag)
-            Qn_to4_sum = np.inner(Qn_sq, Qn_sq)
-            Qn_to6 = np.power(Qn_sq, 3)
-            Qn_to6_sum = np.sum(Qn_to6)
             Q3n = self.__Qn(phi, 3 * self.n_)
-            Q3n_sq_sum = np.vdot(Q3n, Q3n).real
-            ReQ2nQnConjSq = np.inner(Q2n, np.square(Qn.conj())).real
-            ReQ3nQ2nConjQnConj = np.vdot(
-                Q3n, np.multiply(Q2n.conj(), Qn.conj())
-            ).real
+            Qn_sq = np.square(Qn.real) + np.square(Qn.imag)
+            Q2n_sq = np.square(Q2n.real) + np.square(Q2n.imag)
+            Q3n_sq = np.square(Q3n.real) + np.square(Q3n.imag)
             QnConj_cub = np.power(Qn.conj(), 3)
-            ReQ3nQnConjCub = np.inner(Q3n, QnConj_cub).real
-            ReQ2nQnQnConjCub = np.inner(np.multiply(Q2n, Qn), QnConj_cub).real
-            norm1 = (
-                mult
-                * (mult - 1)
-                * (mult - 2)
-                * (mult - 3)
-                * (mult - 4)
-                * (mult - 5)
-            )
-            norm1_sum = np.sum(norm1)
-            norm2 = mult * (mult - 1) * (mult - 2) * (mult - 3) * (mult - 5)
-            norm2_sum = np.sum(norm2)
-            norm3 = mult * (mult - 1) * (mult - 3) * (mult - 4)
-            norm3_sum = np.sum(norm3)
-            norm4 = (mult - 1) * (mult - 2) * (mult - 3)
-            norm4_sum = np.sum(norm4)
+            ReQ2nQnConjSq = np.real(Q2n * np.square(Qn.conj()))
+            ReQ3nQ2nConjQnConj = np.real(Q3n * Q2n.conj() * Qn.conj())
+            ReQ3nQnConjCub = np.real(Q3n * QnConj_cub)
+            ReQ2nQnQnConjCub = np.real(Q2n * Qn * QnConj_cub)
 
-            corr1 = (
-                Qn_to6_sum
-                + 9.0 * Q2n_sq_sum * Qn_sq_sum
-                - 6.0 * ReQ2nQnQnConjCub
-            ) / norm1_sum
-            corr2 = (
-                4.0 * (ReQ3nQnConjCub - 3.0 * ReQ3nQ2nConjQnConj) / norm1_sum
-            )
-            corr3 = (
-                2.0
-                * (9.0 * np.sum((mult - 4) * ReQ2nQnConjSq) + 2.0 * Q3n_sq_sum)
-                / norm1_sum
-            )
-            corr4 = -9.0 * (Qn_to4_sum + Q2n_sq_sum) / norm2_sum
-            corr5 = 18.0 * Qn_sq_sum / norm3_sum
-            corr6 = -6.0 / norm4_sum
-            corr = corr1 + corr2 + corr3 + corr4 + corr5 + corr6
-
-            # corr_err computation here:
             W6 = (
                 mult
                 * (mult - 1)
@@ -276,40 +237,23 @@ class QCumulantFlow(FlowInterface.FlowInterface):
             sum_W6 = np.sum(W6)
             sum_W6_sq = np.inner(W6, W6)
 
-            # ebe difference from mean: <6>_i - <<6>>
-            ebe_6p_corr1 = (
-                np.real(Qn * Qn * Qn * Qn.conj() * Qn.conj() * Qn.conj())
-                + 9.0 * np.real(Q2n * Q2n.conj()) * np.real(Qn * Qn.conj())
-                - 6.0 * np.real(Q2n * Qn * QnConj_cub)
-            ) / norm1
-            ebe_6p_corr2 = (
-                4.0
-                * (
-                    np.real(Q3n * QnConj_cub)
-                    - 3.0 * np.real(Q3n * Q2n.conj() * Qn.conj())
-                )
-            ) / norm1
-            ebe_6p_corr3 = (
-                2.0
-                * (
-                    9.0 * (mult - 4) * np.real(Q2n * Qn.conj() * Qn.conj())
-                    + 2.0 * np.real(Q3n * Q3n.conj())
-                )
-            ) / norm1
-            ebe_6p_corr4 = (
-                -9.0 * np.real(Qn * Qn * Qn.conj() * Qn.conj())
-                + np.real(Q2n * Q2n.conj())
-            ) / norm2
-            ebe_6p_corr5 = (18.0 * np.real(Qn * Qn.conj())) / norm3
-            ebe_6p_corr6 = -6.0 / norm4
-            ebe_6p_corr = (
-                ebe_6p_corr1
-                + ebe_6p_corr2
-                + ebe_6p_corr3
-                + ebe_6p_corr4
-                + ebe_6p_corr5
-                + ebe_6p_corr6
+            # Eq. (A10) times W6 for each event, i.e. the sum over all
+            # 6-tuples of distinct particles of the event
+            sum_6p = (
+                np.power(Qn_sq, 3)
+                + 9.0 * Q2n_sq * Qn_sq
+                - 6.0 * ReQ2nQnQnConjCub
+                + 4.0 * (ReQ3nQnConjCub - 3.0 * ReQ3nQ2nConjQnConj)
+                + 2.0 * (9.0 * (mult - 4) * ReQ2nQnConjSq + 2.0 * Q3n_sq)
+                - 9.0 * (mult - 4) * (np.square(Qn_sq) + Q2n_sq)
+                + 18.0 * (mult - 2) * (mult - 5) * Qn_sq
+                - 6.0 * mult * (mult - 4) * (mult - 5)
             )
+            # the events are weighted with their number of 6-tuples
+            corr = np.sum(sum_6p) / sum_W6
+
+            # ebe difference from mean: <6>_i - <<6>>
+            ebe_6p_corr = sum_6p / W6
             difference = ebe_6p_corr - corr
             # weighted variance
             variance = np.sum(W6 * np.square(difference)) / sum_W6
